@@ -28,3 +28,46 @@ Theorem C01_optimise_den : forall sigma cden (t : tree Z),
   (optimise t = None -> tden sigma cden t = false).
 Proof. exact optimise_den. Qed.
 Print Assumptions C01_optimise_den.
+
+From T4V Require Import C01.ProofsT4.
+
+(* pot_to_t4_cell.  State: [inv] = every key of the table is <= the counter;
+   [fresh] = the node ids of the tree (given by pot_flag) are distinct, not yet
+   in the table and <= the counter; [sem] = each entry of the surface cache is an
+   operator-free volume denoting its literal, each entry of the cell-reference
+   cache denotes its cell.  [cref] is convert_cellref, specified by the same
+   post-condition (discharged for the real convert_cellref in C01_convert_cellref).
+   Conclusion: earlier volumes are untouched (extends: the frame), the counter
+   grows, new keys are node ids of the tree or fresh counter values, and - when
+   the resulting table has no None operand - the caches stay coherent and the
+   returned id denotes the tree for the sense assignment sigma (a None result
+   means the tree is empty at sigma). *)
+Theorem C01_to_t4_cell_sound : forall sigma cden cref orig u0 u1,
+  0 < u0 -> 0 < u1 -> consistent sigma u0 u1 ->
+  (forall c s r s', cref c s = Ok (r, s') -> inv s -> fresh [] s ->
+     extends (vols s) (vols s') /\ cnt s <= cnt s' /\ inv s' /\ bound [] s s' /\
+     (nonone (vols s') -> sem sigma cden s -> sem sigma cden s' /\ rden sigma (vols s') r (cden c))) ->
+  forall (t : tree Z) s r s',
+  leaves_ok nz t -> to_t4 cref orig u0 u1 t s = Ok (r, s') -> inv s -> fresh (ids_of t) s ->
+  extends (vols s) (vols s') /\ cnt s <= cnt s' /\ inv s' /\ bound (ids_of t) s s' /\
+  (nonone (vols s') -> sem sigma cden s ->
+   sem sigma cden s' /\ rden sigma (vols s') r (tden sigma cden t)).
+Proof.
+  intros sigma cden cref orig u0 u1 H0 H1 Hc Hcref t s r s' Hnz H Hi Hf.
+  exact (to_t4_sound sigma cden cref orig u0 u1 H0 H1 Hc Hcref t Hnz s r s' H Hi Hf).
+Qed.
+Print Assumptions C01_to_t4_cell_sound.
+
+From T4V Require Import C01.ProofsRefuted.
+
+(* without the guard "no None operand" the statement is false of the faithful
+   model: cell 1 = -1 (cell 2), cell 2 = 2 -2.  The emitted non-FICTIVE volume 1
+   is `EQUA MINUS 1 1 INTE 1 None`; it has no denotation for any sigma. *)
+Theorem C01_to_t4_cell_emptyref_refuted :
+  exists s, convert_cells 3 w_cells w_matching 4 5 [1] (mkSt 2 [] [] []) = Ok s /\
+            no_none (vols s) = false /\
+            (exists v, lookup 1 (vols s) = Some v /\ v_fict v = false /\
+                       v_ops v = Some (OInter, [None])) /\
+            forall sigma b, ~ Vden sigma (vols s) 1 b.
+Proof. exact emptyref_refuted. Qed.
+Print Assumptions C01_to_t4_cell_emptyref_refuted.
